@@ -6,7 +6,7 @@
 // Line protocol (strings %XX-escaped with kit.Esc; an object is `id;grp;tag;data`):
 //
 //	cfg <prefix> <name;u|n;id|grp|tag>,...            index configuration of the case (first line)
-//	create|put|replace <id> <grp> <tag> <data> <fault>  => ok | err:exists | err:missing | err:io | err:other | panic
+//	create|put|replace <id> <grp> <tag> <data> <fault>  => ok | err:exists | err:missing | err:conflict | err:io | err:other | panic
 //	delete <id> <fault>                                  => (same)
 //	rebuild <fault>                                      => (same)
 //	get <id>                                             => ok <obj> | err:missing | err:other
@@ -81,7 +81,7 @@ func (f *faultStore) BeginTx() (storage.Tx, error) {
 }
 func (f *faultStore) View(fn func(storage.ReadOnlyTx) error) error { return storage.DoView(f, fn) }
 func (f *faultStore) Update(fn func(storage.Tx) error) error       { return storage.DoUpdate(f, fn) }
-func (f *faultStore) Store(buckets ...[]byte) storage.Interface     { panic("not used") }
+func (f *faultStore) Store(buckets ...[]byte) storage.Interface    { panic("not used") }
 
 type faultTx struct {
 	storage.Tx
@@ -212,6 +212,8 @@ func errTok(err error) string {
 		return "err:exists"
 	case err == storage.ErrNoObjectExists:
 		return "err:missing"
+	case err == storage.ErrUniqueIndexConflict:
+		return "err:conflict"
 	case errors.Is(err, errInjected):
 		return "err:io"
 	}
@@ -490,9 +492,11 @@ func Run(args []string) int {
 	n := 0
 	if f.Tier == "thorough" {
 		exhaustive(out, e, 3, &n)
+		exhaustiveUnique(out, e, 3, &n)
 		faultSweep(out, e, r.Fork(), 400, &n)
 	} else {
 		exhaustive(out, e, 2, &n)
+		exhaustiveUnique(out, e, 2, &n)
 		faultSweep(out, e, r.Fork(), 60, &n)
 	}
 	return 0
